@@ -103,7 +103,7 @@ def spec_rename_text(text, kind, renamer):
     body = ast.parse(nodollar, mode='eval').body
   except SyntaxError:
     return text, 0
-  if any(r not in ('const', 'kwsplat') for r in predgen.unsupported_reasons(body)):
+  if predgen.unsupported_reasons(body):
     return text, 0          # the collectors reject it: "don't do anything to a syntactically wrong formula"
   patches = []
   for (ty, start, name, extra) in spec_entities(kind, body, nodollar):
